@@ -205,6 +205,64 @@ def zoo_domain_task(names):
     return out
 
 
+def bounded_layer_cases():
+    """The unit-box splines as the layers build them (coupling and autoregressive layers with tails=None): a value
+    outside [0, 1] at a TRANSFORMED position is out of domain and must be rejected in either direction, in
+    training and evaluation mode, with and without autograd recording; the end points and interior values
+    (whatever the identity features hold) must be accepted with finite results."""
+    warnings.filterwarnings("ignore")
+    import torch
+    from nflows import transforms as TR
+    from nflows.nn import nets
+    from nflows.transforms.base import InputOutsideDomain
+
+    def net(i, o):
+        return nets.ResidualNet(i, o, hidden_features=6, num_blocks=1)
+
+    builders = {}
+    for fam in ("Linear", "Quadratic", "Cubic", "RationalQuadratic"):
+        builders["Piecewise%sCouplingTransform" % fam] = (lambda fam=fam: getattr(TR, "Piecewise%sCouplingTransform" % fam)([1, -1, 1], net, num_bins=4), [0, 2])
+    builders["MaskedPiecewiseLinearAutoregressiveTransform"] = (lambda: TR.MaskedPiecewiseLinearAutoregressiveTransform(4, 3, 6, num_blocks=1), [0, 1, 2])
+    builders["MaskedPiecewiseQuadraticAutoregressiveTransform"] = (lambda: TR.MaskedPiecewiseQuadraticAutoregressiveTransform(3, 6, num_bins=4, num_blocks=1), [0, 1, 2])
+    builders["MaskedPiecewiseCubicAutoregressiveTransform"] = (lambda: TR.MaskedPiecewiseCubicAutoregressiveTransform(4, 3, 6, num_blocks=1), [0, 1, 2])
+    builders["MaskedPiecewiseRationalQuadraticAutoregressiveTransform"] = (lambda: TR.MaskedPiecewiseRationalQuadraticAutoregressiveTransform(3, 6, num_bins=4, num_blocks=1), [0, 1, 2])
+    n, fails = 0, []
+    for name, (build, tpos) in builders.items():
+        torch.manual_seed(5)
+        try:
+            m = build()
+        except Exception:  # noqa
+            continue
+        for mode in ("eval", "train"):
+            m.train(mode == "train")
+            for grad in (True, False):
+                for direction in ("forward", "inverse"):
+                    for label, v, want in (("1.5", 1.5, "out"), ("-0.25", -0.25, "out"), ("1.001", 1.001, "out"), ("-1e-3", -1e-3, "out"), ("0.0", 0.0, "in"), ("1.0", 1.0, "in"), ("0.37", 0.37, "in")):
+                        for pos in (tpos[0], tpos[-1]):
+                            x = torch.tensor([[0.3, 0.6, 0.45], [0.5, 0.2, 0.7], [0.8, 0.4, 0.1]])
+                            x[1, pos] = v
+                            n += 1
+                            try:
+                                with torch.set_grad_enabled(grad):
+                                    y, lad = getattr(m, direction)(x)
+                                got = "Value" if bool(torch.isfinite(y).all()) and bool(torch.isfinite(lad).all()) else "NonFinite"
+                            except InputOutsideDomain:
+                                got = "InputOutsideDomain"
+                            except Exception as e:  # noqa
+                                got = "Crash:" + type(e).__name__
+                            ok = (got == "InputOutsideDomain") if want == "out" else (got == "Value")
+                            if not ok:
+                                # the inverse of an autoregressive layer evaluates later features on partially inverted rows;
+                                # an end point may legitimately round across the box there, so only the forward direction and
+                                # the first transformed position are binding for end points
+                                if want == "in" and label in ("0.0", "1.0") and (direction == "inverse" or pos != tpos[0]) and got == "InputOutsideDomain":
+                                    continue
+                                fails.append({"kind": "bounded_layer", "transform": name, "cls": label, "dir": direction, "mode": mode, "grad": grad, "pos": pos, "dtype": "float32",
+                                              "clause": "out_of_domain_accepted" if want == "out" and got == "Value" else ("in_domain_rejected" if want == "in" else "wrong_failure"),
+                                              "detail": "%s.%s (tails=None, %s mode, autograd %s): value %s at transformed position %d -> %s, specified %s" % (name, direction, mode, "on" if grad else "off", label, pos, got, "InputOutsideDomain" if want == "out" else "a finite value")})
+    return n, fails
+
+
 def mixed_precision_cases():
     """Bounded CDF layers (single-precision parameters, as constructed) given double-precision data that lies outside
     the unit box by less than single precision resolves: the value IS outside, it must be rejected - whether
@@ -258,6 +316,11 @@ def main(run, replay=None):
                 if (f["transform"], f["cls"], f["dir"]) == (c["transform"], c["cls"], c["dir"]):
                     run.violation({"kind": "mixed_precision", "clause": f["clause"], "transform": f["transform"]}, "replayed: " + f["detail"], c)
             return
+        if c.get("kind") == "bounded_layer":
+            for f in bounded_layer_cases()[1]:
+                if all(f[k] == c[k] for k in ("transform", "cls", "dir", "mode", "grad", "pos")):
+                    run.violation({"kind": "bounded_layer", "clause": f["clause"], "transform": f["transform"]}, "replayed: " + f["detail"], c)
+            return
         if c.get("kind") == "large_bound":
             n, fails = large_bounds()
             for f in fails:
@@ -286,6 +349,9 @@ def main(run, replay=None):
     n, lf = mixed_precision_cases()
     run.evaluations += n
     fails += lf
+    n, lf = bounded_layer_cases()
+    run.evaluations += n
+    fails += lf
     from vcore import zoo as _z
 
     znames = [e.name for e in _z.entries() if e.kind == "transform" and not e.has("bounded01") and not e.has("discrete") and not e.has("umnn") and e.name not in ("Logit", "Logit/eps", "CauchyCDFInverse")]
@@ -298,7 +364,7 @@ def main(run, replay=None):
     run.sample({"scalar_state": {"transform": "Tanh.inverse", "class": "at_hi", "specified": "InputOutsideDomain (open interval)"}})
     seen = set()
     for f in fails:
-        key = (f["kind"], f.get("transform"), f.get("family"), f.get("bound"), f.get("cls"), f["clause"], f["dtype"], f.get("mode"), f.get("via"))
+        key = (f["kind"], f.get("transform"), f.get("family"), f.get("bound"), f.get("cls") if f["kind"] != "bounded_layer" else None, f["clause"], f["dtype"], f.get("mode"), f.get("via"))
         if key in seen:
             continue
         seen.add(key)
